@@ -154,6 +154,9 @@ def run_C13(ctx):
     core.design_check(ctx, "MC_Pools", "MC_Pools.cfg", workers=2)
     core.tlaps(ctx, "PoolsProof")      # the ownership rule for any number of buffers and calls
     core.design_check(ctx, "MC_Wire", "MC_Wire_Q.cfg")
+    # (0) one stream, a blocked Send and a Receive at the same time
+    from . import p_scalars
+    p_scalars.scalars(ctx, {"recv_while_send"}, [])
     # (1) many goroutines, pairwise-distinct payloads, one client and one handler per configuration
     scen = []
     for g in ("C01", "C02", "C08", "C11"):
